@@ -30,6 +30,13 @@ Definition no_renewal_of_migrating (s : State) : Prop :=
   forall oid o, orders s !! oid = Some o -> o_op o = 3 ->
     forall id sh, In id (o_shards o) -> shards s !! id = Some sh -> sh_status sh <> ShardMigrating.
 
+(* the dividing line found while proving (Proofs/RefInt.v): a shard under migration is listed only by
+   the order it names as its own. [no_renewal_of_migrating] above is false in a benign history
+   (renew, then migrate: the new shard is attached to the renewal order). *)
+Definition migrating_private (s : State) : Prop :=
+  forall oid o id sh, orders s !! oid = Some o -> In id (o_shards o) -> shards s !! id = Some sh ->
+    sh_status sh = ShardMigrating -> sh_order sh = oid.
+
 Definition Inv_ref (s : State) : Prop :=
   Inv_alias s /\ Inv_order_shards s /\ Inv_shard_order s /\ Inv_completed_scheduled s.
 
